@@ -16,6 +16,15 @@ def fname(i):
     return 'f%d/sub/file%d.val' % (i, i)
 
 
+def content(i):
+    return ('<content of file %d>' % i).encode()
+
+
+def is_prefile(rel):
+    import re
+    return re.fullmatch(r'f\d+/sub/file\d+\.val', rel) is not None
+
+
 class Scn:
     """one symbolic cache state + configuration on world `w`"""
 
@@ -28,7 +37,7 @@ class Scn:
         st = dict(eviction_policy=policy, disk_min_file_size=min_file_size)
         if settings:
             st.update(settings)
-        self.cache = c = env.new_cache(w, DIR, **st)
+        self.cache = c = w.new_cache(None, **st)
         c._con  # open the connection before events are counted
         self.vars = []
         if sym_cfg:
@@ -39,9 +48,7 @@ class Scn:
         elif statistics == 'sym':
             c.statistics = self.v_int('statistics', 0, 1)
         self.pcs = []
-        db = c._con.db
-        db.page_count = self.page_count
-        self.db = db
+        w.set_page_count(c, self.page_count)
         self.specs = []
         self.rowvars = []
         prev_rowid = None
@@ -78,24 +85,22 @@ class Scn:
             size = self.v_int('r%d.size' % i, 0, 2 ** 40)
             rv.update(isfile=isfile, value=val, size=size)
             fz = sx._fold(isfile.z)
-            fn_id = db.intern.intern(TEXT, fname(i))
+            fn_id = w.intern_text(fname(i))
             spec['mode'] = Cell(INT, IfR(fz, 2, 1))
             spec['filename'] = Cell(IfI(fz, TEXT, NULL), IfR(fz, fn_id, 0))
             spec['value'] = Cell(IfI(fz, NULL, INT), IfR(fz, 0, val.z))
             spec['size'] = Cell(INT, IfR(fz, size.z, 0))
             # the file exists iff the row is alive and file-backed (Inv)
             al = sx._fold(alive.z) if isinstance(alive, B) else True
-            w.fs.add_file(DIR + '/' + fname(i), content=('<content of file %d>' % i).encode(), size=size,
-                          exists=simp(And(al, fz)))
+            w.add_prefile(fname(i), content(i), size, simp(And(al, fz)))
             self.specs.append(spec)
             self.rowvars.append(rv)
         # distinct keys among alive rows (unique index)
         for i in range(n):
             for j in range(i + 1, n):
                 assume(self.rowvars[i]['key'].z != self.rowvars[j]['key'].z)
-        state.install_model(w, c, self.specs)
-        self.T0 = state.snapshot_model(w, c)
-        self.files0 = {p: w.fs.exists_z(p) for p in w.fs.files}
+        w.install_rows(c, self.specs)
+        self.T0 = w.snapshot(c)
 
     # -- named inputs
     def v_int(self, name, lo=None, hi=None):
@@ -104,6 +109,8 @@ class Scn:
         return v
 
     def v_real(self, name, lo=None, hi=None):
+        lo = -2 ** 62 if lo is None else lo
+        hi = 2 ** 62 if hi is None else hi
         v = self.w.real(name, lo, hi)
         self.vars.append(v.z)
         return v
@@ -120,11 +127,11 @@ class Scn:
         return v
 
     def snapshot(self):
-        return state.snapshot_model(self.w, self.cache)
+        return self.w.snapshot(self.cache)
 
     def clock(self, k):
         """pre-declared clock readings t0 <= t1 <= ... (the world's clock creates the same names)"""
-        return [z3.Real('t%d' % i) for i in range(k)]
+        return [z3.Int('t%d' % i) for i in range(k)]
 
     # -- file-system part of Inv: a *.val file exists iff a present row names it, with the recorded size
     def fs_inv(self, T):
@@ -132,20 +139,13 @@ class Scn:
         conj = []
         items = [it for it in T.items if it.present is not False]
         known = []
-        for p, f in w.fs.files.items():
-            if not p.endswith('.val'):
-                continue
-            rel = p[len(DIR) + 1:]
-            fid = self.db.intern.intern(TEXT, rel)
+        for rel, ex, size, complete in w.val_files(self.cache):
+            fid = w.intern_text(rel)
             known.append(fid)
             names = [And(it.present, EqI(it.c['filename'].cls, TEXT), EqR(it.c['filename'].num, fid)) for it in items]
-            named = OrL(names)
-            ex = w.fs.exists_z(p)
-            conj.append(sx.EqB(ex, named))
-            sz = f.size
-            szz = sz.z if isinstance(sz, I) else sz
-            conj.append(Implies(ex, AndL(Implies(nm, EqR(it.c['size'].num, szz)) for nm, it in zip(names, items))))
-            conj.append(Implies(ex, bool(f.complete)))
+            conj.append(sx.EqB(ex, OrL(names)))
+            conj.append(Implies(ex, AndL(Implies(nm, EqR(it.c['size'].num, size)) for nm, it in zip(names, items))))
+            conj.append(Implies(ex, bool(complete)))
         # every present row with a file name names a known file
         for it in items:
             conj.append(Implies(And(it.present, EqI(it.c['filename'].cls, TEXT)), OrL(EqR(it.c['filename'].num, k) for k in known)))
